@@ -268,6 +268,7 @@ def run(ctx):
     r_strong_registry(ctx)
     r_ortho(ctx)
     r_registered(ctx)
+    pepsolve.r_registry(ctx)
     pepsolve.r_fresh_declarations(ctx, only=("declare_block_partition",))
     formula.r_formula(ctx, "sound", only={"BlockSmoothConvexFunction"})
     formula.r_formula(ctx, "complete", only={"BlockSmoothConvexFunction"})
